@@ -140,6 +140,32 @@ func checkURI(u *protocol.URI, target string) string {
 	return ""
 }
 
+// checkSetPath: the path setters (used by FileFromFS, the vhost rewriter, redirects, clients) normalise
+// like the parser does: whatever is set, Path() holds no dot segment; and it agrees with parsing the
+// same string as a target when that string is rooted.
+func checkSetPath(u *protocol.URI, p string) string {
+	for k := 0; k < 2; k++ {
+		u.Reset()
+		api := "SetPath"
+		if k == 0 {
+			u.SetPath(p)
+		} else {
+			api = "SetPathBytes"
+			u.SetPathBytes([]byte(p))
+		}
+		got := string(u.Path())
+		if msg := contained(got); msg != "" {
+			return fmt.Sprintf("URI.%s(%q): Path()=%q %s", api, p, got, msg)
+		}
+		if strings.HasPrefix(p, "/") && !hasCTL(p) && !strings.ContainsAny(p, "?#") {
+			if want := refPath(p); got != want {
+				return fmt.Sprintf("URI.%s(%q): Path()=%q, segment-stack reference=%q", api, p, got, want)
+			}
+		}
+	}
+	return ""
+}
+
 func refClean(p string) string {
 	want := path.Clean("/" + p)
 	if want != "/" {
@@ -216,6 +242,9 @@ func TestC07Exhaustive(t *testing.T) {
 				msg := checkURI(u, s)
 				if msg == "" {
 					msg = checkClean(s)
+				}
+				if msg == "" {
+					msg = checkSetPath(u, s)
 				}
 				if msg != "" {
 					fails++
